@@ -2091,6 +2091,24 @@ def _finding_key(case, ans):
     if op == "im_ker_p256" and ans == "panic":
         rows, p = dec_sparse(a[0]), int(a[1])
         return "sparse-det-degenerate-sequence-panic" if krylov_tail_zero(rows, p) else None
+    # ---- SmithNormalForm::reduce, the documented HACK ("spurious orphan generator? ignoring relation"): when the row phase leaves
+    #      det = 2h with a first pivot 2 and the first generator is much larger than the second, the first generator is dropped
+    #      WITHOUT a recorded relation; the remaining generators need not generate the group. Recognised by its own conditions:
+    #      exactly the largest generator is neither kept nor removed-with-a-relation, and the size test of the source holds.
+    if op == "snf_reduce" and ans not in BAD:
+        t = ans.split(" ")
+        if len(t) == 4:
+            orig = unlst(a[1])
+            kept = unlst(t[0]) + [p_ for p_, _ in parse_removed(t[3])]
+            missing = sorted(set(orig) - set(kept))
+            fin = unlst(t[0])
+            if len(orig) >= 2 and len(missing) == 1 and len(set(kept)) == len(orig) - 1 and all(missing[0] > g for g in fin):
+                # the code tests gens[0] against gens[1] AFTER the row phase (generators eliminated by then are in `removed`): the
+                # dropped generator is the largest one still present, the weakest form of the size test is against any kept one
+                g0 = missing[0]
+                if any((len(orig) >= 3 and g0 > 20 * g and g > 10) or g0 > 100 * g for g in fin):
+                    return "snf-orphan-generator-dropped"
+        return None
     # ---- SmithNormalForm::reduce: the product of the pivots after the row phase is a proper multiple of h
     #      (incomplete Howell form); the Lean model of reduce must refuse at the same assertion
     if op == "snf_reduce" and ans == "panic":
